@@ -110,6 +110,34 @@ func JSONDiff(a, b string, max int) []string {
 			}
 			if len(xv) != len(yv) {
 				out = append(out, fmt.Sprintf("%s: array length %d != %d", path, len(xv), len(yv)))
+			} else if len(xv) > 1 {
+				// the same elements in another order is one difference, not one per element
+				ex, ey := make([]string, len(xv)), make([]string, len(yv))
+				first := -1
+				for i := range xv {
+					bx, _ := json.Marshal(xv[i])
+					by, _ := json.Marshal(yv[i])
+					ex[i], ey[i] = string(bx), string(by)
+					if first < 0 && ex[i] != ey[i] {
+						first = i
+					}
+				}
+				if first >= 0 {
+					sx, sy := append([]string(nil), ex...), append([]string(nil), ey...)
+					sort.Strings(sx)
+					sort.Strings(sy)
+					same := true
+					for i := range sx {
+						if sx[i] != sy[i] {
+							same = false
+							break
+						}
+					}
+					if same {
+						out = append(out, fmt.Sprintf("%s<order>: same %d elements in a different order, first at index %d: %s != %s", path, len(xv), first, short(xv[first]), short(yv[first])))
+						return
+					}
+				}
 			}
 			n := len(xv)
 			if len(yv) < n {
